@@ -348,6 +348,14 @@ def builder_case(ctx, case):
         ctx.ran()
         if bad:
             ctx.violation({'builder': name, 'clause': 'wrong scalar rejected'}, f'{tag}')
+        # a complete, internally consistent adapter for ANOTHER tweak point (its own scalar, its own adapter witness)
+        # does not open a lock that was made for T
+        t2 = ((te ^ 0x55) % (1 << 252) or 5).to_bytes(32, 'little')
+        T2 = refed.base_mul_enc(teff(t2))
+        wit2 = T_.make_adapter_witness(ks, T2, dict(sf), flags)
+        ctx.ran(2)
+        if T2 != Tp and auth([P(refed.clamp_scalar(t2)) + wit2.bytes, lock.bytes], sf):
+            ctx.violation({'builder': name, 'clause': 'the lock is bound to its tweak point'}, f'{tag} flags={flags}')
     # a changed covered field / other key make the adapter check script fail
     sf2 = dict(sf)
     cov = [n for n in sorted(sf) if not fl >> (int(n[-1]) - 1) & 1]
@@ -362,6 +370,10 @@ def builder_case(ctx, case):
         ctx.ran()
         if not auth([wit.bytes, l1.bytes], sf3):
             ctx.violation({'builder': 'make_adapter_locks_pub', 'clause': 'a field excluded by the flags may change'}, f'{tag} {name_}')
+    t2 = ((te ^ 0x55) % (1 << 252) or 5).to_bytes(32, 'little')
+    T2 = refed.base_mul_enc(teff(t2))
+    if T2 != Tp and auth([T_.make_adapter_witness(ks, T2, dict(sf), flags).bytes, l1.bytes], sf):
+        ctx.violation({'builder': 'make_adapter_locks_pub', 'clause': 'the lock is bound to its tweak point'}, f'{tag}')
     X2 = refed.public_key(env.sym(seed, 'K%d' % ((k + 1) % 3)))
     l1o, _ = T_.make_adapter_locks_pub(X2, Tp, flags)
     if auth([wit.bytes, l1o.bytes], sf):
